@@ -27,13 +27,15 @@ BodyCases(b) == \A o \in 0..(b.nbodies - 1) : \A j \in 1..Len(BodyVals) : Emit(b
 \* few: all of them in every tier
 XrefCutCases(b) == \A n \in 0..12 : \A pad \in {"none", "blank", "comment"} :
                      LET f == [k |-> "xrefcut", lines |-> n, pad |-> pad] IN WellFormed(b, f) /\ Emit(b, <<f>>)
+RunCases(b) == \A i \in 1..Len(RunPlaces) : \A j \in 1..Len(RunFillers) : \A n \in RunLengths :
+                 LET f == [k |-> "run", place |-> RunPlaces[i], filler |-> RunFillers[j], n |-> n] IN WellFormed(b, f) /\ Emit(b, <<f>>)
 RandomCases(b) == \A n \in 1..Randoms : Emit(b, <<[k |-> "random", n |-> n, len |-> (n * 97) % 2048, header |-> n % 2 = 0]>>)
 
 VARIABLE done
 MCInit == done = FALSE /\ Init
 MCNext == /\ ~done
           /\ \A bi \in 1..Len(BaseRecs) : LET b == B(bi) IN SlotCases(b, bi) /\ StructCases(b, bi) /\ KeywordCases(b, bi) /\ PairCases(b, bi) /\ TailCases(b) /\ BodyCases(b) /\ XrefCutCases(b)
-          /\ RandomCases(B(1))
+          /\ RandomCases(B(1)) /\ RunCases(B(1))
           /\ \A i \in 1..NBombs : Emit(B(1), <<[k |-> "bomb", name |-> BombNames[i]]>>)
           /\ done' = TRUE /\ UNCHANGED <<nfaults, answered>>
 MCSpec == MCInit /\ [][MCNext]_<<done, nfaults, answered>>
